@@ -151,7 +151,7 @@ fn pick_n(rng: &mut Rng, span: i64) -> i64 {
 
 fn linear_all(ctx: &Ctx, sink: &mut Sink) {
   let mut rng = ctx.rng(1101);
-  let n = if ctx.quick() { 300 } else { 15000 };
+  let n = if ctx.quick() { 3000 } else { 15000 };
   let day_of = |j: i64| catch(|| JulianDay::from_julian_day(j as f64 - 0.5).get_solar_day());
   let time_of = |j: i64, s: i64| day_of(j).and_then(|d| catch(|| SolarTime::from_ymd_hms(d.get_year(), d.get_month(), d.get_day(), (s / 3600) as usize, ((s / 60) % 60) as usize, (s % 60) as usize)));
   for k in 0..n {
